@@ -11,3 +11,4 @@ INVARIANT LinearRampLaw
 INVARIANT ComplexAgrees
 INVARIANT ImplCorrect
 INVARIANT ImplRangeCorrect
+INVARIANT GeometryLaws
